@@ -150,6 +150,10 @@ func runC11(r *Run) {
 			{Name: "detach-2kids-map", Kind: "nested", T: 256, Keys: 2, Classes: []string{"t", "A", "M"}, Oracles: or, Extra: ex(1, 2, 1, 3, 2)},
 			{Name: "detach-depth3", Kind: "nested", T: 256, Keys: 1, Classes: []string{"h", "A", "M"}, Oracles: or, Extra: ex(0, 1, 2, 3, 3)},
 			{Name: "detach-compact", Kind: "nested", T: 256, Keys: 1, Classes: []string{"Mc:t,t"}, Oracles: or, Extra: ex(0, 2, 2, 3, 2)},
+			// type changes of detached containers (and of their attached siblings): same-typed children decoded from one
+			// parent register must not share type information
+			{Name: "detach-settype", Kind: "nested", T: 256, Keys: 2, Classes: []string{"t", "A"}, Oracles: or, Extra: func() map[string]int { m := ex(0, 2, 1, 3, 2); delete(m, "nosettype"); return m }()},
+			{Name: "detach-settype-map", Kind: "nested", T: 256, Keys: 2, Classes: []string{"t", "A", "M"}, Oracles: or, Extra: func() map[string]int { m := ex(1, 2, 1, 2, 2); delete(m, "nosettype"); return m }()},
 			// the caller keeps using the handles it held before the detachment (of the detached container and of
 			// its own nested containers): the detached container must stay a coherent value of its own
 			{Name: "detach-oldhandle-depth3", Kind: "nested", T: 256, Keys: 1, Classes: []string{"h", "A", "M"}, Oracles: or, Extra: exOld(0, 1, 2, 3, 3)},
